@@ -862,3 +862,106 @@ def install_translation_model(reg):
         return prev_len(interp, x)
 
     M[len] = m_len
+
+
+# ------------------------------------------------------------------------------------------------
+# stack shifter (direct_ptycho_utils._fourier_shift_stack): batched transforms, half-spectrum transforms, meshgrid, view
+# ------------------------------------------------------------------------------------------------
+
+
+def install_stack_models(reg):
+    """TRUSTED (A5/A6):
+      * fft2 / ifft2 over the last two axes of a stack act per image (shape unchanged);
+      * rfft2(x) of a real (..., H, W) array has shape (..., H, W div 2 + 1); rfftfreq(n, d)[i] = i/(n d), length n div 2 + 1;
+        irfft2(c, s=None) returns a REAL array of shape (..., H, 2 (Wc - 1)) - or (..., s[0], s[1]) when `s` is given;
+      * meshgrid(a, b, indexing='ij') = (a[i], b[j]) on the (len a, len b) grid;
+      * x.view(-1, 1, .., 1) / reshape of a 1-D array adds trailing unit axes."""
+    M = reg.models
+    prev_attr = reg.attr_models.get(SymArr)
+
+    def arr_attr(interp, base, name):
+        if name in ("view", "reshape") and base.ndim == 1:
+            def vw(*shape, _b=base):
+                if len(shape) == 1 and isinstance(shape[0], (tuple, list)):
+                    shape = tuple(shape[0])
+                if len(shape) >= 1 and not isinstance(shape[0], Sym) and shape[0] == -1 and all((not isinstance(d, Sym)) and d == 1 for d in shape[1:]):
+                    return _b[(slice(None),) + (None,) * (len(shape) - 1)]
+                return SymArr.reshape(_b, *shape)
+            return _sym_ok(vw)
+        return prev_attr(interp, base, name) if prev_attr is not None else NotImplemented
+
+    reg.attr_models[SymArr] = arr_attr
+
+    def m_meshgrid(interp, *xs, indexing="xy"):
+        if not any(isinstance(x, SymArr) for x in xs):
+            f = torch.meshgrid if any(isinstance(x, torch.Tensor) for x in xs) else np.meshgrid
+            return interp.native(f, *xs, indexing=indexing)
+        if len(xs) != 2 or indexing != "ij":
+            raise OutOfSubset("meshgrid other than two vectors with indexing='ij'")
+        a, b = (to_arr(x) for x in xs)
+        af, bf = a.fn, b.fn
+        shape = (a.shape[0], b.shape[0])
+        return (SymArr(shape, lambda i, j: af(i), a.kind, name="grid0"), SymArr(shape, lambda i, j: bf(j), b.kind, name="grid1"))
+
+    M[torch.meshgrid] = m_meshgrid
+    M[np.meshgrid] = m_meshgrid
+
+    def m_rfft2(interp, x, *a, **k):
+        if isinstance(x, SymArr):
+            if x.ndim < 2:
+                raise OutOfSubset("rfft2 of a rank-1 array")
+            nm = x.name or _uid("arr")
+            c = CArr(tuple(x.shape[:-1]) + (S(x.shape[-1]) // 2 + 1,), ("rfft2", nm))
+            c.parts[nm] = c
+            c.src = x
+            return c
+        if isinstance(x, CArr):
+            raise OutOfSubset("rfft2 of complex data")
+        return interp.native(torch.fft.rfft2 if isinstance(x, torch.Tensor) else np.fft.rfft2, x, *a, **k)
+
+    def m_irfft2(interp, x, s=None, *a, **k):
+        if isinstance(x, CArr):
+            if s is not None:
+                shape = tuple(x.shape[:-2]) + (s[0], s[1])
+            else:
+                shape = tuple(x.shape[:-1]) + (2 * (S(x.shape[-1]) - 1),)
+            c = x._derive(shape, ("irfft2", x.expr, "given-size" if s is not None else "default-size"))
+            r = real_part(c)
+            r.base = r
+            return r
+        if isinstance(x, SymArr):
+            raise OutOfSubset("irfft2 of a real symbolic array")
+        return interp.native(torch.fft.irfft2 if isinstance(x, torch.Tensor) else np.fft.irfft2, x, s, *a, **k)
+
+    def m_rfftfreq(interp, n, d=1.0, **kw):
+        if not contains_sym((n, d)):
+            return interp.native(np.fft.rfftfreq, n, d)
+        nt, dt = lift(n), R(d)
+        return SymArr((S(n) // 2 + 1,), lambda i: Sym(z3.ToReal(i) / (z3.ToReal(nt) * dt)), "real", name="rfftfreq")
+
+    for mod_ in (np.fft, torch.fft):
+        M[mod_.rfft2] = m_rfft2
+        M[mod_.irfft2] = m_irfft2
+        M[mod_.rfftfreq] = m_rfftfreq
+
+
+def install_norm(reg):
+    """np.linalg.norm of a short real vector = sqrt(sum of squares) (A4 symbol sqrt)."""
+    M = reg.models
+    prev = M.get(np.linalg.norm)
+
+    def m_norm(interp, x, *a, **kw):
+        x = to_arr(x)
+        if isinstance(x, SymArr) and x.ndim == 1 and V._dim_lit(x.shape[0]) is not None and not a and not kw:
+            tot = None
+            for i in range(V._dim_lit(x.shape[0])):
+                e = S(x.fn(z3.IntVal(i)))
+                tot = e * e if tot is None else tot + e * e
+            return reals.app("sqrt", tot if tot is not None else 0)
+        if prev is not None:
+            return prev(interp, x, *a, **kw)
+        if contains_sym(x):
+            raise OutOfSubset("np.linalg.norm of a symbolic array other than a short vector")
+        return interp.native(np.linalg.norm, x, *a, **kw)
+
+    M[np.linalg.norm] = m_norm
